@@ -38,6 +38,7 @@ type Contracts struct {
 	Assumed []string
 	StableStructs []string // struct types whose fields are not reachable from evaluated Lisp code: kept across opaque calls (assumed)
 	PureMethods map[string]bool // "Iface.Method": dynamic calls are a pure function of the receiver (assumed)
+	Sweeps map[string][]string // package-wide contracts: "operands-kept" -> packages ("cl", "slip")
 }
 
 func (e *Exec) contractOf(fn *ssa.Function) *Contract {
